@@ -204,6 +204,12 @@ fn run<B: Buffer + Debug + PartialEq + FromIterator<u8>>(cap: usize, ops: &[Op],
         // Debug output depends only on the visible contents
         ensure!(model.len() > 4096 || format!("{:?}", buf) == format!("{:?}", model.as_slice()), "wrong-debug", "{}: Debug output {:?} differs from the slice's {:?}", ctx(), buf, model.as_slice());
         ensure!(model.len() > 4096 || format!("{:x?}", buf) == format!("{:x?}", model.as_slice()), "wrong-debug", "{}: {{:x?}} output differs from the slice's", ctx());
+        // ... also with the alternate (pretty) flag, upper-case hex and a width, as `{:#?}` on an enclosing value would use
+        if model.len() <= 64 {
+            ensure!(format!("{:#?}", buf) == format!("{:#?}", model.as_slice()), "wrong-debug", "{}: {{:#?}} output {:#?} differs from the slice's {:#?}", ctx(), buf, model.as_slice());
+            ensure!(format!("{:#x?}", buf) == format!("{:#x?}", model.as_slice()), "wrong-debug", "{}: {{:#x?}} output differs from the slice's", ctx());
+            ensure!(format!("{:02X?}", buf) == format!("{:02X?}", model.as_slice()), "wrong-debug", "{}: {{:02X?}} output differs from the slice's", ctx());
+        }
         // equality depends only on the visible contents: compare with a buffer reached by a different history
         let other: B = model.iter().copied().collect();
         ensure!(buf == other && other == buf, "equality-depends-on-history", "{}: not equal to a buffer collected from the same contents {}", ctx(), hex_short(&model, 40));
@@ -276,7 +282,7 @@ fn exh_ops() -> Vec<Op> {
 
 impl Prop for C18 {
     const ID: &'static str = "C18";
-    const RULE: &'static str = "stateful / model-based: N in {0,1,2,3,4,5,7,8,16,33,64,255,256} (and the Vec-backed Buffer impl with an unbounded model, which now and then is extended by 65 536 .. 300 000 bytes at once) x operation histories of length 0..40 over {push(b), extend_from_slice(s) with |s| in 0..=N+3, truncate(k) with k in 0..=N+3 or usize::MAX, clear, from_iter of <= N bytes through 13 iterator kinds (slice, Vec, from_fn, filter, take_while, skip_while, chain, flat_map, map_while, step_by, two with a loose but legal size_hint, and one that is not fused, i.e. yields bytes again after its first None) - the model is what the same iterator yields into a std Vec}; model = Vec<u8> with a capacity check. After every step: same Ok/Err(OutOfMemory), same contents, failing op leaves contents unchanged, Debug / {:x?} equal the slice's, equality with a buffer reached by a different history (incl. one with a stale byte beyond its length), inequality with a shorter buffer and with buffers that differ in exactly one element (last, first, middle, one more). Non-trivial: the history contains a failing operation and a truncate/clear that shrank the buffer followed by a growing operation. Distinct = distinct (N, history).";
+    const RULE: &'static str = "stateful / model-based: N in {0,1,2,3,4,5,7,8,16,33,64,255,256}, rarely 65535 / 65536 / 65537 (and the Vec-backed Buffer impl with an unbounded model, which now and then is extended by 65 536 .. 300 000 bytes at once) x operation histories of length 0..40 over {push(b), extend_from_slice(s) with |s| in 0..=N+3, truncate(k) with k in 0..=N+3 or usize::MAX, clear, from_iter of <= N bytes through 13 iterator kinds (slice, Vec, from_fn, filter, take_while, skip_while, chain, flat_map, map_while, step_by, two with a loose but legal size_hint, and one that is not fused, i.e. yields bytes again after its first None) - the model is what the same iterator yields into a std Vec}; model = Vec<u8> with a capacity check. After every step: same Ok/Err(OutOfMemory), same contents, failing op leaves contents unchanged, Debug ({:?}, {:x?}, {:#?}, {:#x?}, {:02X?}) equal the slice's, equality with a buffer reached by a different history (incl. one with a stale byte beyond its length), inequality with a shorter buffer and with buffers that differ in exactly one element (last, first, middle, one more). Non-trivial: the history contains a failing operation and a truncate/clear that shrank the buffer followed by a growing operation. Distinct = distinct (N, history).";
     type Case = Case;
     type Input = Input;
 
@@ -296,7 +302,8 @@ impl Prop for C18 {
     }
 
     fn lower(c: &Case) -> Input {
-        let n = if c.vec_backed { usize::MAX } else { NS[pick(c.n, NS.len())] };
+        // capacities around 2^16 once in ~200 cases (a length field narrower than usize shows there)
+        let n = if c.vec_backed { usize::MAX } else if c.n < 330 { [65_535usize, 65_536, 65_537][c.n as usize % 3] } else { NS[pick(c.n, NS.len())] };
         let base = if n == usize::MAX { 40 } else { n };
         let ops = c
             .ops
